@@ -16,7 +16,8 @@ MANIFEST = dict(
          "populated bin, determinism of densification (so sketch_slice = item-wise + end_sketch), idempotence, u32 and float "
          "views functions of the u64 view, failure (not a hang) on the empty stream. Every occupancy pattern (2^m) for "
          "m <= 8 (quick) / 12 (thorough) is realised with witness items, which decides termination completely for those m "
-         "(the generators are position-keyed); large m is sampled under a watchdog.",
+         "(the generators are position-keyed); large m is sampled under a watchdog."
+         " f32 tie witnesses (two items, same bin, same value) are streamed in both orders, item-wise and as slices.",
     design_ref="DESIGN.md section 4, C09/C08",
     note="trusted: TLC, Json/IOUtils, the read-only raw-state hook, child-process/in-process watchdogs (3 s / 10 s against "
          "microsecond calls); termination for m above the enumerated range is sampled",
